@@ -10,7 +10,7 @@ R17g PathGeometric::interpolate(count): the number of states inserted on a segme
 R17h a junction state created by interpolation has its own partial segment accounted in the candidate cost
 """
 import re
-from engine import facts, paths, lin
+from engine import facts, paths, lin, fd
 from engine.facts import AnalysisBroken, src
 from engine.shape import key, args, pkey, for_loop
 from rules import planners as P
@@ -310,11 +310,16 @@ def r17f(rep, F):
                      'motionCost(states[v], states[v+1]) starting at E2 and running while v < E3, and the closing piece '
                      'motionCost(states[E4], after) meet: E1 == E2 and E3 == E4 under the same selector (linear normal form); a gap '
                      'or overlap mis-states the old cost and lets a worse path be accepted')
-    f = F.one(G + 'PathSimplifier::perturbPath')
+    _fold(rep, F.one(G + 'PathSimplifier::perturbPath'))
+    _fold(rep, F.one(G + 'PathSimplifier::partialShortcutPath'))
+
+
+def _fold(rep, f):
+    short = f.name.split('::')[-1]
     wl = [x for x in f.walk() if x['k'] == 'WhileStmt' and any(c.get('callee') == OO + 'motionCost' for c in f.walk(x['body']))]
     wl = [w for w in wl if lin.cmp_le0(f, w['cond']) is not None]
     if len(wl) != 1:
-        raise AnalysisBroken('R17f: vertex loop of perturbPath\'s cost fold not found')
+        raise AnalysisBroken('R17f: vertex loop of %s\'s cost fold not found' % short)
     w = wl[0]
     c = lin.cmp_le0(f, w['cond'])
     d = dict(c[1])
@@ -347,20 +352,37 @@ def r17f(rep, F):
         # unsnapped case as it stands
         E2 = lin.lin(f, sel['id'])
         selfp = None
-    # the piece before: ConditionalOperator with the same selector whose else is motionCost(before, states[E1])
+    # the partial pieces: ConditionalOperators whose else-branch is motionCost(x, y).  The opening piece runs from the sampled point to
+    # a path vertex, motionCost(point, states[E1]); the closing piece from a path vertex to the sampled point, motionCost(states[E4], point)
     E1 = None
     E4 = None
+    odd = None
     for x in f.walk():
         if x['k'] == 'ConditionalOperator':
             e = f.strip(x['else'])
             if e is not None and e.get('callee') == OO + 'motionCost':
                 b0, b1 = [f.strip(y) for y in args(f, e)]
-                if (selfp is None or nofp(f.fp(x['cond'])) == selfp) and b1.get('oop') == '[]' and f.line(x) < f.line(w):
-                    E1 = lin.lin(f, b1['ch'][1])
-                elif b0.get('oop') == '[]' and f.line(x) > f.line(w):
-                    E4 = lin.lin(f, b0['ch'][1])
-    if E1 is None or E4 is None:
-        raise AnalysisBroken('R17f: partial pieces of the cost fold not found')
+                sub0, sub1 = b0.get('oop') == '[]', b1.get('oop') == '[]'
+                if sub1 and not sub0:
+                    if (selfp is None or nofp(f.fp(x['cond'])) == selfp or short != 'perturbPath') and E1 is None:
+                        E1 = lin.lin(f, b1['ch'][1])
+                    elif E1 is not None:
+                        odd = x
+                elif sub0 and not sub1:
+                    if E4 is None:
+                        E4 = lin.lin(f, b0['ch'][1])
+                    else:
+                        odd = x
+                else:
+                    odd = x
+    if odd is not None or E1 is None or E4 is None:
+        where = odd if odd is not None else w
+        rep.add('R17f', f.name, 'fold-pieces-oriented', False, f.where(where),
+                'the cost of the old route needs one opening piece motionCost(sampled point, states[.]) and one closing piece '
+                'motionCost(states[.], sampled point); found %s' % ('a piece that is neither, or a second piece of the same kind' if odd is not None
+                                                                    else 'no opening piece' if E1 is None else 'no closing piece'))
+        return
+    rep.add('R17f', f.name, 'fold-pieces-oriented', True, f.where(w), 'one opening and one closing piece, both in path order')
     ok1 = lin.canon(E1) == lin.canon(E2)
     ok2 = lin.canon(E3) == lin.canon(E4)
     rep.add('R17f', f.name, 'fold-start-contiguous', ok1, f.where(w),
@@ -485,6 +507,76 @@ def r17h(rep, F):
             'the validated segment and the costed segment differ')
 
 
+class _CondInterp(fd.Interp):
+    """evaluates a condition of checkAndRepair over concrete loop indices and an oracle for the motion checks (keyed by their arguments)"""
+
+    def __init__(self, fn, oracle):
+        super().__init__(fn)
+        self.oracle = oracle
+        self.asked = set()
+
+    def load(self, n, env):
+        raise AnalysisBroken('R17i: condition reads %s' % self.fn.fp(n['id']))
+
+    def call(self, n, env):
+        c = n.get('callee') or ''
+        if c.endswith('::checkMotion'):
+            a = args(self.fn, n)
+            idx = []
+            for x in a[:2]:
+                e = self.fn.strip(x)
+                if e is None or e.get('oop') != '[]':
+                    raise AnalysisBroken('R17i: motion check on something that is not a path state')
+                idx.append(self.ev(e['ch'][1], env))
+            self.asked.add(tuple(idx))
+            return self.oracle[tuple(idx)]
+        if c.endswith('operator->') or c.endswith('::get'):
+            return ('si',)
+        raise AnalysisBroken('R17i: condition calls ' + c)
+
+
+def r17i(rep, F):
+    rep.rule('R17i', 'checkAndRepair: a re-sampled vertex i is accepted exactly when the test that declared it broken no longer fires -- the '
+                     'acceptance condition is the negation of the detection condition, as boolean functions of the two motion checks '
+                     '(i-1, i) and (i, i+1) and of the position of i, evaluated for every i and path length up to 5 and every outcome of '
+                     'the checks.  (The outgoing motion of the penultimate vertex is never looked at again by the outer loop.)')
+    f = F.one(G + 'PathGeometric::checkAndRepair')
+    loops = [x for x in f.walk() if x['k'] == 'ForStmt' and x.get('body') and (f.strip(x['body']) or {}).get('k') == 'IfStmt'
+             and any((c.get('callee') or '').endswith('::checkMotion') for c in f.walk(f.strip(x['body'])['cond']))]
+    if len(loops) != 1:
+        raise AnalysisBroken('R17i: the repair loop of checkAndRepair was not recognised')
+    fl = loops[0]
+    det = f.strip(fl['body'])
+    acc = [x for x in f.walk(det['then']) if x['k'] == 'IfStmt' and any((c.get('callee') or '').endswith('::checkMotion') for c in f.walk(x['cond']))]
+    if len(acc) != 1:
+        raise AnalysisBroken('R17i: the acceptance test of checkAndRepair was not recognised')
+    acc = acc[0]
+    init = f.nodes.get(fl.get('init'))
+    ikey = '%s#%d' % (init['decls'][0]['name'], init['decls'][0]['did']) if init and init['k'] == 'DeclStmt' else None
+    nkeys = {'%s#%d' % (z['name'], z['did']) for z in f.walk(fl['cond']) if z['k'] == 'DeclRefExpr' and z.get('dk') == 'Local'} - {ikey}
+    if ikey is None or len(nkeys) != 1:
+        raise AnalysisBroken('R17i: loop variable / bound of the repair loop not recognised')
+    nkey = list(nkeys)[0]
+    bad = None
+    runs = 0
+    for n1 in (2, 3, 4):
+        for i in range(1, n1):
+            for c1 in (False, True):
+                for c2 in (False, True):
+                    oracle = {(i - 1, i): c1, (i, i + 1): c2}
+                    env = {ikey: i, nkey: n1}
+                    try:
+                        d = _CondInterp(f, oracle).truth(_CondInterp(f, oracle).ev(det['cond'], dict(env)))
+                        a = _CondInterp(f, oracle).truth(_CondInterp(f, oracle).ev(acc['cond'], dict(env)))
+                    except KeyError as e:
+                        raise AnalysisBroken('R17i: a motion check on the pair %s, which is not adjacent to the repaired vertex' % (e,))
+                    runs += 1
+                    if a == d and bad is None:
+                        bad = 'vertex i = %d of a path with last index %d, check(i-1,i) = %s, check(i,i+1) = %s: detection says %s and the ' \
+                              'acceptance test says %s' % (i, n1, c1, c2, 'broken' if d else 'fine', 'accept' if a else 'reject')
+    rep.add('R17i', f.name, 'accept-iff-not-broken', bad is None, f.where(acc), bad or 'acceptance = not detection on %d abstract points' % runs)
+
+
 def run(rep):
     F = facts.load_units(UNITS)
     rep.units.update(UNITS)
@@ -496,3 +588,4 @@ def run(rep):
     r17f(rep, F)
     r17g(rep, F)
     r17h(rep, F)
+    r17i(rep, F)
